@@ -414,6 +414,10 @@ from ..through_time import make_rule as _mk_tt, make_t2 as _mk_t2
 _through_time = _mk_tt("C12")
 _small_edits = _mk_t2("C12")
 
+def _group_join(ctx):
+    from .c11 import r5_group_join
+    r5_group_join(ctx)                     # pieces of one contig arriving in several chunks are all concatenated
+
 RULES = [
     ("C12-R1", r1_pending_group),
     ("C12-R2", r2_every_contig_gets_a_buffer),
@@ -424,4 +428,5 @@ RULES = [
     ("C12-R7", _similarity_streams),
     ("C12-T1", _through_time),
     ("C12-T2", _small_edits),
+    ("C12-R8", _group_join),
 ]
